@@ -19,6 +19,9 @@ import (
 //	x += 1        ->  x++          (and x -= 1 -> x--), x an identifier
 //	(x)           ->  x            around operands that need no parentheses
 //	v := E; return v -> return E   when v is used nowhere else
+//	c := E; if c {   -> if E {      when c is used nowhere else and E is free of calls
+//	a, b := x, y     -> a := x; b := y   (new variables, call-free operands)
+//	for i := range xs { v := xs[i]; ...  ->  for i, v := range xs { ...
 //
 // Only operands are exchanged and operator tokens changed; every node keeps
 // its identity, so types.Info stays valid. Both rewrites preserve meaning for
@@ -97,6 +100,181 @@ func normalize(pk *packages.Package) {
 					info.Types[pe.X] = tv
 				}
 				c.Replace(pe.X)
+			}
+			return true
+		})
+		pureExpr := func(e ast.Expr) bool {
+			ok := true
+			ast.Inspect(e, func(n ast.Node) bool {
+				switch x := n.(type) {
+				case *ast.CallExpr:
+					if tv, has := info.Types[x.Fun]; has && tv.IsType() {
+						return true // conversion
+					}
+					if id, isID := x.Fun.(*ast.Ident); isID {
+						if _, isB := info.Uses[id].(*types.Builtin); isB && (id.Name == "len" || id.Name == "cap") {
+							return true
+						}
+					}
+					ok = false
+				case *ast.UnaryExpr:
+					if x.Op == token.ARROW {
+						ok = false
+					}
+				case *ast.FuncLit:
+					ok = false
+				}
+				return ok
+			})
+			return ok
+		}
+		mentionsName := func(e ast.Expr, name string) bool {
+			found := false
+			ast.Inspect(e, func(n ast.Node) bool {
+				if id, ok := n.(*ast.Ident); ok && id.Name == name {
+					found = true
+				}
+				return !found
+			})
+			return found
+		}
+		// a, b := x, y  ->  a := x; b := y   (all new; a later operand does not mention an earlier
+		// name; evaluation order is unchanged and a new variable cannot be read by a later operand)
+		splitList := func(list []ast.Stmt) []ast.Stmt {
+			var out []ast.Stmt
+			for _, st := range list {
+				as, ok := st.(*ast.AssignStmt)
+				if ok && as.Tok == token.DEFINE && len(as.Lhs) >= 2 && len(as.Lhs) == len(as.Rhs) {
+					okSplit := true
+					for i, l := range as.Lhs {
+						id, isID := l.(*ast.Ident)
+						if !isID || id.Name == "_" || info.Defs[id] == nil {
+							okSplit = false
+							break
+						}
+						for j := i + 1; j < len(as.Rhs); j++ {
+							if mentionsName(as.Rhs[j], id.Name) {
+								okSplit = false
+							}
+						}
+					}
+					if okSplit {
+						for i := range as.Lhs {
+							out = append(out, &ast.AssignStmt{Lhs: []ast.Expr{as.Lhs[i]}, TokPos: as.TokPos, Tok: token.DEFINE, Rhs: []ast.Expr{as.Rhs[i]}})
+						}
+						continue
+					}
+				}
+				out = append(out, st)
+			}
+			return out
+		}
+		ast.Inspect(f, func(n ast.Node) bool {
+			switch x := n.(type) {
+			case *ast.BlockStmt:
+				x.List = splitList(x.List)
+			case *ast.CaseClause:
+				x.Body = splitList(x.Body)
+			}
+			return true
+		})
+		// for i := range xs { v := xs[i]; ... }  ->  for i, v := range xs { ... }
+		ast.Inspect(f, func(n ast.Node) bool {
+			rs, ok := n.(*ast.RangeStmt)
+			if !ok || rs.Tok != token.DEFINE || rs.Key == nil || rs.Value != nil || len(rs.Body.List) == 0 {
+				return true
+			}
+			k, okK := rs.Key.(*ast.Ident)
+			xs, okX := rs.X.(*ast.Ident)
+			as, okA := rs.Body.List[0].(*ast.AssignStmt)
+			if !okK || !okX || !okA || as.Tok != token.DEFINE || len(as.Lhs) != 1 || len(as.Rhs) != 1 {
+				return true
+			}
+			v, okV := as.Lhs[0].(*ast.Ident)
+			ix, okI := as.Rhs[0].(*ast.IndexExpr)
+			if !okV || !okI || v.Name == "_" {
+				return true
+			}
+			ixX, ok1 := ix.X.(*ast.Ident)
+			ixI, ok2 := ix.Index.(*ast.Ident)
+			if !ok1 || !ok2 || info.Uses[ixX] == nil || info.Uses[ixX] != info.Uses[xs] || info.Uses[ixI] != info.Defs[k] {
+				return true
+			}
+			// xs must not be assigned inside the loop
+			assigned := false
+			ast.Inspect(rs.Body, func(m ast.Node) bool {
+				if a, ok := m.(*ast.AssignStmt); ok {
+					for _, l := range a.Lhs {
+						if id, ok := l.(*ast.Ident); ok && info.Uses[id] == info.Uses[xs] && info.Uses[id] != nil {
+							assigned = true
+						}
+					}
+				}
+				return true
+			})
+			if assigned {
+				return true
+			}
+			if _, isSlice := info.TypeOf(xs).Underlying().(*types.Slice); !isSlice {
+				return true
+			}
+			rs.Value = v
+			rs.Body.List = rs.Body.List[1:]
+			return true
+		})
+		// v := E; S(v)  ->  S(E)   (v used only there, once; E pure; S an if-condition, a return or an assignment)
+		useCount := map[types.Object]int{}
+		ast.Inspect(f, func(n ast.Node) bool {
+			if id, ok := n.(*ast.Ident); ok {
+				if o := info.Uses[id]; o != nil {
+					useCount[o]++
+				}
+			}
+			return true
+		})
+		inlineList := func(list []ast.Stmt) []ast.Stmt {
+			for i := 0; i+1 < len(list); i++ {
+				as, ok := list[i].(*ast.AssignStmt)
+				if !ok || as.Tok != token.DEFINE || len(as.Lhs) != 1 || len(as.Rhs) != 1 || !pureExpr(as.Rhs[0]) {
+					continue
+				}
+				v, ok := as.Lhs[0].(*ast.Ident)
+				if !ok || info.Defs[v] == nil || useCount[info.Defs[v]] != 1 {
+					continue
+				}
+				obj := info.Defs[v]
+				// only boolean conditions are inlined here (returns are handled below)
+				is, ok := list[i+1].(*ast.IfStmt)
+				if !ok || is.Init != nil {
+					continue
+				}
+				replaced := false
+				switch c := is.Cond.(type) {
+				case *ast.Ident:
+					if info.Uses[c] == obj {
+						is.Cond = as.Rhs[0]
+						replaced = true
+					}
+				case *ast.UnaryExpr:
+					if id, ok := c.X.(*ast.Ident); ok && c.Op == token.NOT && info.Uses[id] == obj {
+						c.X = &ast.ParenExpr{X: as.Rhs[0]}
+						info.Types[c.X] = info.Types[as.Rhs[0]]
+						replaced = true
+					}
+				}
+				if replaced {
+					list = append(list[:i], list[i+1:]...)
+					i--
+				}
+			}
+			return list
+		}
+		ast.Inspect(f, func(n ast.Node) bool {
+			switch x := n.(type) {
+			case *ast.BlockStmt:
+				x.List = inlineList(x.List)
+			case *ast.CaseClause:
+				x.Body = inlineList(x.Body)
 			}
 			return true
 		})
